@@ -198,18 +198,24 @@ public:
     //! put or replace/touch item in LRU cache
     void put(const Key& key, const Value& value)
     {
+        // insert key into linked list at the front (most recently used). This
+        // is done before an existing entry is removed, because key or value
+        // may refer into that entry, e.g. put(k, get(k)).
+        list_.push_front(KeyValuePair(key, value));
+
         // first try to find an existing key
         typename Map::iterator it = map_.find(key);
         if (it != map_.end())
         {
+            // replace the old entry
             list_.erase(it->second);
-            map_.erase(it);
+            it->second = list_.begin();
         }
-
-        // insert key into linked list at the front (most recently used)
-        list_.push_front(KeyValuePair(key, value));
-        // store iterator to linked list entry in map
-        map_.insert(std::make_pair(key, list_.begin()));
+        else
+        {
+            // store iterator to linked list entry in map
+            map_.insert(std::make_pair(list_.front().first, list_.begin()));
+        }
     }
 
     //! touch pair in LRU cache for key. Throws if it is not in the map.
